@@ -180,7 +180,14 @@ pub fn run_slowly(
                         let _ = o.receive();
                     }
                     // now and then the connection is handed to another thread for one call
-                    let received = if std::mem::take(&mut move_next) { crate::core::on_other_thread(|| conn.receive()) } else { conn.receive() };
+                    // ... or the call is made from a destructor while the thread unwinds (clean-up code)
+                    let received = if std::mem::take(&mut move_next) {
+                        crate::core::on_other_thread(|| conn.receive())
+                    } else if chatty && salt & 7 == 3 && (interruptions == 1 || interruptions == 3) {
+                        crate::core::while_unwinding(|| conn.receive())
+                    } else {
+                        conn.receive()
+                    };
                     match received {
                         Ok(Some(r)) => {
                             let (o, mm) = observe_response(&r);
@@ -374,7 +381,13 @@ fn receive_cancelling(conn: &mut AsyncConnection<AsyncChunkReader>, salt: u64) -
             let _ = fut.as_mut().poll(&mut cx);
         });
         // attempts 3 and 8 are made on another thread (the connection is Send)
-        let polled = if salt & 31 == 0 && (attempt == 2 || attempt == 7) {
+        let polled = if salt & 7 == 3 && (attempt == 1 || attempt == 3) {
+            // polled from a destructor while the thread unwinds
+            crate::core::while_unwinding(|| {
+                let mut fut = std::pin::pin!(conn.receive());
+                fut.as_mut().poll(&mut cx)
+            })
+        } else if salt & 31 == 0 && (attempt == 2 || attempt == 7) {
             crate::core::on_other_thread(|| {
                 let mut cx = Context::from_waker(Waker::noop());
                 let mut fut = std::pin::pin!(conn.receive());
